@@ -167,16 +167,31 @@ def _sort_key(h):
   return (h["ox"], json.dumps([h["probes"], h["init"], h["edits"]], sort_keys=True))
 
 
+def _cost(h):
+  """Rough relative engine cost of a history (only used to cut shards of similar duration)."""
+  c = 8 + 4 * len(h["edits"])
+  if any(e["op"] in ("retype", "repl") for e in h["edits"]) or h.get("session"):
+    c += 40                      # the worker builds a new engine afterwards
+  return c * (2 if h.get("fam") == "random" else 1)
+
+
 def execute(obsets, hist, workdir, nshards, tag="cases", fresh=False):
-  """Histories in lexicographic order (so that neighbours share prefixes), cut into contiguous shards."""
+  """Histories in lexicographic order (so that neighbours share prefixes), cut into contiguous shards
+  of similar estimated cost."""
   hist = sorted(hist, key=_sort_key)
   nshards = max(1, min(nshards, len(hist)))
-  size = (len(hist) + nshards - 1) // nshards
+  total = sum(_cost(h) for h in hist)
+  parts, cur, acc = [], [], 0
+  for h in hist:
+    cur.append(h)
+    acc += _cost(h)
+    if acc >= total * (len(parts) + 1) / nshards and len(parts) < nshards - 1:
+      parts.append(cur)
+      cur = []
+  if cur:
+    parts.append(cur)
   args = []
-  for i in range(nshards):
-    part = hist[i * size:(i + 1) * size]
-    if not part:
-      continue
+  for i, part in enumerate(parts):
     inp = os.path.join(workdir, "%s-in-%02d.json" % (tag, i))
     json.dump({"obsets": obsets, "hist": part}, open(inp, "w"))
     args.append({"inp": inp, "out": os.path.join(workdir, "%s-%02d.json" % (tag, i)), "fresh": fresh})
